@@ -135,7 +135,8 @@ class C08(DocCheck):
         'mirrorTable t, with the single-cell (dict, not list) case an explicit proof case, and the whole scan with tables '
         'next to text regions; under RowMajor (columns < c, strictly ascending within a row, some row complete): one row per '
         'distinct row index, shape = (#rows, c), table[i][j] = the cell with those indices or the empty placeholder, values '
-        'rows x c with the space-joined line texts / "", cell and line counts equal to the source; NOT proved (sampled by '
+        'rows x c with the space-joined texts of the lines that have a text (a cell line without TextEquiv or with an empty '
+        'Unicode is kept as a line and contributes nothing to the value) / "", cell and line counts equal to the source; NOT proved (sampled by '
         'the oracle only): the word count of stats, scan.stats, and that shape / values survive the JSON round trip (C06); '
         'correspondence: tables whose cells are NOT listed in row-major order (pairs (row, col) strictly ascending in file '
         'order) or that have no complete row, and mutated tables that are no conformant TableRegion any more, are outside the '
@@ -173,10 +174,17 @@ class C08(DocCheck):
                     w['te']['unicode'] = gen.word()
             return l
 
+        def textless(l):
+            """a cell line without text: no TextEquiv at all, or an empty Unicode element"""
+            if rng.random() < 0.5:
+                return dict(l, te=None)
+            return dict(l, te=dict(l['te'], unicode='', plain=None))
+
         def cell(i, j, nlines=None, bare=False):
             c = gen.cell(i, j)
             n = rng.choice([0, 1, 1, 3]) if nlines is None else nlines
-            c['lines'] = [tline() for _ in range(n)]
+            # cells with zero, one or several lines; a line may lack a text (d748213)
+            c['lines'] = [textless(tline()) if rng.random() < 0.15 else tline() for _ in range(n)]
             if bare:
                 c.update(row_span=None, col_span=None, header=None, orientation=None, corner=None)
             return c
@@ -228,18 +236,28 @@ class C08(DocCheck):
             if rng.random() < 0.2:
                 tabs.append(table(1, 2, [[1, 1]]))
             doc(page(tabs, nregions=rng.choice([0, 0, 1, 2])), 'random')
-        # -- outside the quantifier (model correspondence only): no complete row, cells not in row-major order,
-        #    a cell line without text
+        # -- cell lines without text (no TextEquiv / empty Unicode): first, last, all, between lines with text
+        for _ in range(20 if tier == 'quick' else 300):
+            r, c = rng.randint(1, 3), rng.randint(1, 3)
+            t = table(r, c, [[1] * c for _i in range(r)])
+            for victim in rng.sample(t['cells'], rng.randint(1, len(t['cells']))):
+                n = rng.choice([1, 2, 3, 4])
+                pattern = rng.choice(['all', 'first', 'last', 'middle', 'random'])
+                lines = [tline() for _k in range(n)]
+                for k in range(n):
+                    if (pattern == 'all' or (pattern == 'first' and k == 0) or (pattern == 'last' and k == n - 1)
+                            or (pattern == 'middle' and 0 < k < n - 1) or (pattern == 'random' and rng.random() < 0.5)):
+                        lines[k] = textless(lines[k])
+                victim['lines'] = lines
+            doc(page([t], nregions=rng.choice([0, 0, 1])), 'textless-lines')
+        # -- outside the quantifier (model correspondence only): no complete row, cells not in row-major order
         for _ in range(20 if tier == 'quick' else 400):
             r, c = rng.randint(1, 4), rng.randint(2, 5)
             mask = [[1 if rng.random() < 0.5 else 0 for _j in range(c)] for _i in range(r)]
             t = table(r, c, mask)
-            kind = rng.choice(['no-full-row', 'shuffled', 'no-text'])
+            kind = rng.choice(['no-full-row', 'shuffled'])
             if kind == 'shuffled':
                 rng.shuffle(t['cells'])
-            if kind == 'no-text' and t['cells']:
-                victim = rng.choice(t['cells'])
-                victim['lines'] = [dict(tline(), te=None)]
             # 'outside': not judged by the oracle (as before).  core.OUTSIDE (a difference between model and code is
             # recorded, not a broken obligation) ONLY when the statement's quantifier really excludes the table: cells
             # not in row-major order, or no complete row.  A cell line without text stays compared exactly (the
@@ -324,7 +342,10 @@ class C08(DocCheck):
         real = out['real']
         if 'err' in real:
             src_tables = case.input['src']['tables']
-            key = 'single-cell' if any(len(t['cells']) == 1 for t in src_tables) else 'raises'
+            textless = any(l['te'] is None or l['te']['unicode'].strip() == '' for t in src_tables for c in t['cells']
+                           for l in c['lines'])
+            key = ('cell-line-without-text' if textless and real['err'] == 'TypeError'
+                   else 'single-cell' if any(len(t['cells']) == 1 for t in src_tables) else 'raises')
             bad(f'{key}:{real["err"]}', f'table document rejected with {real["err"]}')
             return fs
         self.judge(out['xml'], real['ok']['scan'], real['ok']['extra'], bad, '', '')
@@ -391,7 +412,8 @@ class C08(DocCheck):
                         elif item['row'] != r or item['col'] != j:
                             bad('index:placeholder', f'{where}[{i}][{j}] placeholder has row/col {item["row"]}/{item["col"]}')
                     else:
-                        text = ' '.join((l['te'] or {}).get('text') or '' for l in c['lines'])
+                        # the space-joined texts of the lines that have a text (no TextEquiv / empty Unicode: none)
+                        text = ' '.join(tx for tx in ((l['te'] or {}).get('text') or '' for l in c['lines']) if tx != '')
                         vrow.append(text)
                         if 'err' in item or item['id'] != c['id']:
                             bad('index:cell', f'{where}[{i}][{j}] is {item}, the source cell there is {c["id"]!r}')
